@@ -23,7 +23,7 @@ VARIANTS = {
               "-fno-sanitize-recover=undefined"], ["-fsanitize=fuzzer,address,undefined"]),
     "tsan": (["-O1", "-g", "-fno-omit-frame-pointer", "-fsanitize=thread"], ["-fsanitize=thread"]),
     "o2": (["-O2", "-g"], []),
-    "plain": (["-O0", "-g"], []),
+    "plain": (["-O0", "-g", "-gdwarf-4"], []),
 }
 LIBDEFS = ["-D_GNU_SOURCE", "-D_REENTRANT=1", "-D" + GUARD, "-std=gnu11", "-w"]
 
@@ -423,11 +423,67 @@ def run_check(pid, tier, seed):
             e["VERIF_SEED"] = str(seed)
             od = os.path.join(sdir, "mode%02d" % j)
             shards.append(Shard(100 + j, [mode_binary, "--out", od, "--known", KNOWN] + extra_args + ["--mode"] + m, e, od))
+        fill = p.get("fill_differential")
+        if fill:
+            # heap-fill differential (uninitialised reads): every shard runs a second time with another
+            # malloc fill byte; the per-case digests of everything observed must be identical
+            for sh in list(shards):
+                if sh.idx >= 100:
+                    continue
+                sh.cmd = sh.cmd + ["--digests"]
+                sh.env = dict(sh.env, ASAN_OPTIONS=sh.env["ASAN_OPTIONS"] + ":malloc_fill_byte=170:max_malloc_fill_size=1048576")
+                e2 = dict(sh.env, ASAN_OPTIONS=env["ASAN_OPTIONS"] + ":malloc_fill_byte=85:max_malloc_fill_size=1048576")
+                od = sh.outdir + "-fill55"
+                tw = Shard(200 + sh.idx, [binary, "--out", od, "--known", KNOWN, "--digests"] + extra_args, e2, od)
+                tw.twin_of = sh
+                shards.append(tw)
+        vg = p.get("valgrind_sample")
+        if vg:
+            vbin = build_harness(p, rundir, "plain")
+            e = dict(env)
+            e["RC_PARAMS"] = "seed=%d max_success=%d max_size=60" % (seed * 1000 + 999, vg[tier])
+            od = os.path.join(sdir, "valgrind")
+            shards.append(Shard(300, ["valgrind", "-q", "--error-exitcode=77", "--exit-on-first-error=yes", "--leak-check=full",
+                                      "--errors-for-leak-kinds=definite", "--child-silent-after-fork=yes", vbin, "--no-isolate",
+                                      "--out", od, "--known", KNOWN] + extra_args, e, od))
         timed_out = run_shards(shards, cfg.get("wall_limit", 1500 if tier == "quick" else 7200))
+        if fill and not timed_out:
+            for tw in [x for x in shards if getattr(x, "twin_of", None)]:
+                a = tw.twin_of
+                if a.rc != 0 or tw.rc != 0:
+                    continue
+                da = file_bytes(os.path.join(a.outdir, "digests.bin")) if os.path.exists(os.path.join(a.outdir, "digests.bin")) else b""
+                db = file_bytes(os.path.join(tw.outdir, "digests.bin")) if os.path.exists(os.path.join(tw.outdir, "digests.bin")) else b""
+                n = min(len(da), len(db)) // 8
+                bad = next((i for i in range(n) if da[i * 8:i * 8 + 8] != db[i * 8:i * 8 + 8]), None)
+                if bad is None:
+                    continue
+                # reproduce the generation up to that case and save it
+                dd = os.path.join(a.outdir, "dump")
+                subprocess.run([binary, "--out", dd, "--dump-index", str(bad)] + extra_args, env=a.env,
+                               stdout=subprocess.DEVNULL, stderr=subprocess.DEVNULL, cwd=a.outdir)
+                dc = os.path.join(dd, "dumped.case")
+                if not os.path.exists(dc):
+                    continue
+                with open(dc, "a") as f:
+                    f.write("symptom=uninitialised-read\n# case: heap-fill differential: digest differs between malloc_fill_byte=0xAA and 0x55\n")
+                dst = save_found(pid, dc)
+                digs = []
+                for fb in (170, 85, 170, 85):
+                    e3 = dict(env, ASAN_OPTIONS=env["ASAN_OPTIONS"] + ":malloc_fill_byte=%d:max_malloc_fill_size=1048576" % fb)
+                    rc3, out3 = replay_once(binary, dst, e3, extra_args=extra_args)
+                    digs.append([l for l in out3.splitlines() if l.startswith("digest=")][:1])
+                if digs[0] != digs[1] and digs[2] != digs[3] and digs[0] == digs[2]:
+                    if not any(v[0] == dst for v in violations):
+                        violations.append((dst, "heap-fill differential: the case observes different values under malloc_fill_byte=0xAA and 0x55 "
+                                                "(uninitialised memory is read)\n" + out3))
+                else:
+                    unreproduced += 1
+                break
         if timed_out:
             inconclusive = True
             log("[warn] %s: wall-clock guard fired; run is inconclusive, not a violation" % pid)
-        failed = [s for s in shards if s.rc not in (0, None)]
+        failed = [s for s in shards if s.rc not in (0, None) and not getattr(s, "twin_of", None)]
         # crash / hang in-process (no shrunk case): re-run up to three such shards isolated (each case in a
         # forked child) so that the crash becomes an ordinary failure that can be shrunk; in parallel, bounded
         crashed = [s for s in failed if not os.path.exists(os.path.join(s.outdir, "found.case"))
@@ -480,8 +536,13 @@ def run_check(pid, tier, seed):
             else:
                 unreproduced += 1
                 log("[warn] %s: failing case %s did not reproduce on replay (harness problem, not reported)" % (pid, dst))
-        dirs = [s.outdir for s in shards]
+        dirs = [s.outdir for s in shards if not getattr(s, "twin_of", None) and s.idx != 300]
         tot = merge_stats(dirs)
+        if fill:
+            tot["notes"]["heap_fill_differential"] = ["every shard re-run with malloc_fill_byte=0x55 and compared case by case with the 0xAA run"]
+        if vg:
+            vs = read_stats(os.path.join(sdir, "valgrind"))
+            tot["notes"]["valgrind_sample"] = ["%d cases under valgrind memcheck (plain -O0 build)" % (vs or {}).get("cases", 0)]
         weak = check_floors(p, tot) if not violations else []
         if weak:
             log("[warn] %s: generator below class floors: %s" % (pid, ", ".join(weak)))
